@@ -20,7 +20,9 @@ Last(s)  == s[Len(s)]
 IsPrefix(a, b) == Len(a) <= Len(b) /\ SubSeq(b, 1, Len(a)) = a
 Strip(a, b) == SubSeq(b, Len(a) + 1, Len(b))            \* b without its prefix a
 
-RootEnt == [p |-> <<>>, k |-> "dir", c |-> "", lt |-> <<>>, h |-> 0, g |-> 0]
+\* bb/bn: if the entry's name has the form "<base>.~<n>~" then bb = base and bn = n (else "" and 0) - numbered backups
+New(p, k, c, lt) == [p |-> p, k |-> k, c |-> c, lt |-> lt, h |-> 0, g |-> 1, bb |-> "", bn |-> 0]
+RootEnt == [p |-> <<>>, k |-> "dir", c |-> "", lt |-> <<>>, h |-> 0, g |-> 0, bb |-> "", bn |-> 0]
 Has(fs, p)  == p = <<>> \/ \E e \in fs : e.p = p
 Ent(fs, p)  == IF p = <<>> THEN RootEnt ELSE CHOOSE e \in fs : e.p = p
 Kind(fs, p) == Ent(fs, p).k
@@ -84,7 +86,7 @@ Mkdir1(fs, path) ==
   LET ql == Resolve(fs, path, FALSE) IN
   IF IsErr(ql) THEN Fail(fs)
   ELSE IF Has(fs, ql) THEN (IF IsDirF(fs, path) THEN Ok(fs) ELSE Fail(fs))
-  ELSE Ok(Put(fs, [p |-> ql, k |-> "dir", c |-> "", lt |-> <<>>, h |-> 0, g |-> 1]))
+  ELSE Ok(Put(fs, New(ql, "dir", "", <<>>)))
 
 RECURSIVE MkdirAll(_, _)
 MkdirAll(fs, path) ==                      \* std::fs::create_dir_all
@@ -103,17 +105,17 @@ CreateFile(fs, path, c) ==
                       \* every name of the same inode sees the new content
                       Ok({ IF (x.p = q \/ (old.h # 0 /\ x.h = old.h)) THEN [x EXCEPT !.c = c] ELSE x : x \in fs })
                  ELSE Fail(fs))
-  ELSE Ok(Put(fs, [p |-> q, k |-> "file", c |-> c, lt |-> <<>>, h |-> 0, g |-> 1]))
+  ELSE Ok(Put(fs, New(q, "file", c, <<>>)))
 
 Symlink(fs, path, c, lt) ==
   LET q == Resolve(fs, path, FALSE) IN
   IF IsErr(q) \/ q = <<>> \/ Has(fs, q) THEN Fail(fs)
-  ELSE Ok(Put(fs, [p |-> q, k |-> "link", c |-> c, lt |-> lt, h |-> 0, g |-> 1]))
+  ELSE Ok(Put(fs, New(q, "link", c, lt)))
 
 Mknod(fs, path, kind, c) ==
   LET q == Resolve(fs, path, FALSE) IN
   IF IsErr(q) \/ q = <<>> \/ Has(fs, q) THEN Fail(fs)
-  ELSE Ok(Put(fs, [p |-> q, k |-> kind, c |-> c, lt |-> <<>>, h |-> 0, g |-> 1]))
+  ELSE Ok(Put(fs, New(q, kind, c, <<>>)))
 
 Unlink(fs, path) ==                        \* remove_file
   LET q == Resolve(fs, path, FALSE) IN
@@ -124,6 +126,18 @@ Rename(fs, from, to) ==                    \* of a non-directory onto a non-dire
   LET qf == Resolve(fs, from, FALSE)  qt == Resolve(fs, to, FALSE) IN
   IF IsErr(qf) \/ IsErr(qt) \/ ~Has(fs, qf) \/ Kind(fs, qf) = "dir" \/ (Has(fs, qt) /\ Kind(fs, qt) = "dir") THEN Fail(fs)
   ELSE Ok(Put({ x \in fs : x.p # qf }, [Ent(fs, qf) EXCEPT !.p = qt]))
+
+\* rename(2) of a non-directory entry to a numbered-backup name in the same directory (libxcp/src/backup.rs get_backup_path)
+BackupNums(fs, dirq, base) == { e.bn : e \in { x \in Children(fs, dirq) : x.bb = base /\ x.bn > 0 } }
+NextBackup(fs, dirq, base) == IF BackupNums(fs, dirq, base) = {} THEN 1
+                              ELSE (CHOOSE n \in BackupNums(fs, dirq, base) : \A m \in BackupNums(fs, dirq, base) : m <= n) + 1
+BackupRename(fs, path) ==
+  LET q == Resolve(fs, path, FALSE) IN
+  IF IsErr(q) \/ q = <<>> \/ ~Has(fs, q) \/ Kind(fs, q) = "dir" THEN Fail(fs)
+  ELSE LET base == Last(q)
+           n == NextBackup(fs, Front(q), base)
+           newp == Append(Front(q), base \o ".~" \o ToString(n) \o "~")
+       IN Ok(Put({ x \in fs : x.p # q }, [Ent(fs, q) EXCEPT !.p = newp, !.bb = base, !.bn = n]))
 
 \* what an observer compares: path, kind, content
 View(fs) == { [p |-> e.p, k |-> e.k, c |-> e.c] : e \in fs }
